@@ -456,11 +456,13 @@ def guardHits (deep : Bool) (sig : List (String × Bool)) (cv : List (Option Nat
   ((sig.zip cv).filter fun (x : (String × Bool) × Option Nat) => x.2.isNone && (deep || !x.1.2)).map (·.1.1)
 
 /-- Which guards `save_model_with_external_data` has.  **The defaults are the code as it is** (pinned by the harness, no
-probing): all three repairs are in /repo.  The `false` values describe the function before the respective commit and are kept
+probing): all four repairs are in /repo.  The `false` values describe the function before the respective commit and are kept
 only so that the refutation theorems of the old behaviour remain stated.
 `deep` — the uninitialized-initializer guard walks every graph (1c518f5; function bodies b7a9ed1 are outside the model);
 `refuse` — the second guard refuses, before writing, a model one of whose initializers is an `ExternalTensor` stored in
 the destination data file (56a0c3c, finding C20-D1);
+`refuseModel` — the second guard also refuses an initializer stored as external data in the file at `model_path` ITSELF
+(3d20cf2, finding C20-D5: `onnx.save` would overwrite the tensor's backing file);
 `keepNames` — the names of the initializers' tensors are remembered and put back in a `finally` (657db39, finding C20-D4);
 `tqdm` — `importlib.util.find_spec("tqdm") is not None` (environment, not code): the progress-bar branch with its callback
 is taken iff `verbose and tqdm`;
@@ -470,6 +472,7 @@ structure Cfg where
   deep : Bool := true
   refuse : Bool := true
   keepNames : Bool := true
+  refuseModel : Bool := true
   tqdm : Bool := true
   thr : Nat := 256
   deriving Repr, DecidableEq, Inhabited
@@ -490,7 +493,8 @@ branch condition (`runSave` computes it as `verbose and find_spec("tqdm") is not
 def save (cfg : Cfg) (sig : List (String × Bool)) (tnames : List String) (dir name : String) (verbose : Bool) : M Unit := do
   let s ← get
   if !(guardHits cfg.deep sig s.cv).isEmpty then throw .valueError
-  else if cfg.refuse && !(destHits (joinPath dir (name ++ ".data")) s.heap s.cv).isEmpty then throw .valueError
+  else if (cfg.refuse && !(destHits (joinPath dir (name ++ ".data")) s.heap s.cv).isEmpty) ||
+      (cfg.refuseModel && !(destHits (joinPath dir name) s.heap s.cv).isEmpty) then throw .valueError
   else if cfg.keepNames then
     tryFinally (irSave cfg.thr sig tnames dir name (name ++ ".data") verbose) (fun s' => { s' with tn := s.tn })
   else irSave cfg.thr sig tnames dir name (name ++ ".data") verbose
